@@ -1,9 +1,11 @@
 import Gimli.Lemmas.Value
 import Gimli.Lemmas.OpTotal
+import Gimli.Lemmas.OpSuffix
 import Gimli.Lemmas.Capacity
 import Gimli.Lemmas.SimRun
 import Gimli.Lemmas.IterWrap
 import Gimli.Lemmas.RunLimit
+import Gimli.Lemmas.StackInv
 /-!
 # C07 — Expression decoding and evaluation equal the DWARF stack machine
 
@@ -22,31 +24,26 @@ open Gimli.Sim (RunRel FinRel TokOk absScript absPiece)
 
 /-! ## (1) value arithmetic -/
 
-/-- **`value_refines`.** For every address size `a ∈ {1,2,4,8}` (mask `2^(8a)-1`), every binary
-`Value` operation other than the shifts and all integer operands (generic or typed, stored patterns
-arbitrary — generic operands may carry garbage above the address size): the Model result, read
-*modulo `2^(8a)`* for generic values and *exactly* for typed ones (`absV`), is the Spec result on the
-abstracted operands — including the error cases (`DivisionByZero` before `TypeMismatch`,
-`TypeMismatch`, …), which are equal as `Out` values. `WF y`: the stored pattern fits its Rust type. -/
-theorem value_refines (a : Nat) (ha : AddrSize a) (op : BinOp) (hop : ¬ IsShift op) (x y : Value)
-    (ix : IsInt x) (hy : WF y) :
+/-- **`value_refines`.** For every address size `a ∈ {1,2,4,8}` (mask `2^(8a)-1`), **every** binary
+`Value` operation — `add sub mul div rem and or xor shl shr shra eq ge gt le lt ne` — and all
+integer operands (generic or typed, stored patterns arbitrary: generic operands may carry garbage
+above the address size): the Model result, read *modulo `2^(8a)`* for generic values and *exactly*
+for typed ones (`absV`), is the Spec result on the abstracted operands — including the error cases
+(`DivisionByZero` before `TypeMismatch`, `InvalidShiftExpression` for a negative or float count,
+`UnsupportedTypeOperation` for `shr` of a signed / `shra` of an unsigned type, …), which are equal
+as `Out` values. `WF y`: the stored pattern fits its Rust type.
+The shifts are covered at full strength since the `fix:` for finding C07-1 (`shift_length` masks
+a generic count to the address size); before it they needed the hypothesis that a generic count
+is stored masked. -/
+theorem value_refines (a : Nat) (ha : AddrSize a) (op : BinOp) (x y : Value) (ix : IsInt x) (hy : WF y) :
     (binaryOf op x y (maskOf a)).map (absV a) = binary a op (absV a x) (absV a y) :=
-  binary_refines a ha op x y ix hy (fun h => absurd h hop)
+  binary_refines a ha op x y ix hy
 
-/-- **Shifts** (`shl`, `shr`, `shra`): the same statement under the additional hypothesis that a
-*generic* shift count is stored without bits above the address size (`CountMasked`).
-PARTIAL: without that hypothesis the statement is false — `Value::shift_length` does not mask a
-generic count (finding C07-1, `shift_count_unmasked_counterexample` below). The full statement is
-`value_refines` with `hop` dropped. -/
-theorem value_refines_shift_partial (a : Nat) (ha : AddrSize a) (op : BinOp) (x y : Value)
-    (ix : IsInt x) (hy : WF y) (hc : CountMasked a y) :
-    (binaryOf op x y (maskOf a)).map (absV a) = binary a op (absV a x) (absV a y) :=
-  binary_refines a ha op x y ix hy (fun _ => hc)
-
-/-- the witness of finding C07-1 on a 4-byte target: `1 << Generic(2^32 + 2)`; the count is `2`
-modulo the address size, the Spec result is `4`, the Model (= `value.rs`) result is `0`. -/
-theorem shift_count_unmasked_counterexample :
-    (Value.shl ⟨.generic, 1⟩ ⟨.generic, 2 ^ 32 + 2⟩ (maskOf 4)).map (absV 4) = .ok ⟨.generic, 0⟩ ∧
+/-- regression for finding C07-1, the former counter-example on a 4-byte target:
+`1 << Generic(2^32 + 2)` — the count is `2` modulo the address size; the Spec result is `4` and
+so is the Model (= repaired `value.rs`) result (it was `0`). -/
+theorem shift_count_masked_regression :
+    (Value.shl ⟨.generic, 1⟩ ⟨.generic, 2 ^ 32 + 2⟩ (maskOf 4)).map (absV 4) = .ok ⟨.generic, 4⟩ ∧
       binary 4 .shl (absV 4 ⟨.generic, 1⟩) (absV 4 ⟨.generic, 2 ^ 32 + 2⟩) = .ok ⟨.generic, 4⟩ := by
   constructor <;> decide
 
@@ -97,6 +94,14 @@ panic, never fuel exhaustion. -/
 theorem decode_total (e : Endian) (enc : Encoding) (bs : Bytes) : (Op.parse e enc bs).Normal :=
   parse_normal e enc bs
 
+/-- **`OperationIter`**: every operation it yields consumes at least one byte (so it ends), and
+after an error it is empty: the next call is `Ok(None)`. -/
+theorem operation_iter_ends (e : Endian) (enc : Encoding) (input : Bytes) :
+    (∀ op, (iterNext e enc input).1 = .ok (some op) → (iterNext e enc input).2.length < input.length) ∧
+    (∀ x, (iterNext e enc input).1 = .err x →
+      (iterNext e enc (iterNext e enc input).2).1 = .ok none) :=
+  ⟨fun op h => iterNext_progress e enc input op h, fun x h => (iterNext_after_error e enc input x h).2⟩
+
 /-! ## (3) branches -/
 
 /-- **`branch_in_bounds`.** `compute_pc` with a 16-bit target: the new pc is `bytecode[t..]` for the
@@ -121,13 +126,14 @@ theorem branch_target_suffix (pc bc pc' : Bytes) (target : Int) (h : computePc p
 
 /-! ## (4) iteration limit -/
 
-/-- **`iter_limit`** (bound). With `max_iterations = m` (`m + 1 < 2^32`, see
-`iter_limit_u32_max_partial`), from any state whose counter is within the limit, any call that
-returns (`Complete` or a `Requires*`) leaves the counter within the limit, never decreases it, and
-has decoded at most two operations per iteration (one `evaluate_one_operation` per iteration plus
-at most one extra decode after a location-completing operation). The counter is part of the state,
-so the bound is on the total over `evaluate()` and every later `resume_with_*`. -/
-theorem iter_limit (m : Nat) (hm : m + 1 < 2 ^ 32) (fuel : Nat) (s : Eval) (r : Request) (s' : Eval)
+/-- **`iter_limit`** (bound). With `max_iterations = m` (any `u32`: `m < 2^32`), from any state
+whose counter is within the limit, any call that returns (`Complete` or a `Requires*`) leaves the
+counter within the limit, never decreases it, and has decoded at most two operations per
+iteration (one `evaluate_one_operation` per iteration plus at most one extra decode after a
+location-completing operation). The counter is part of the state, so the bound is on the total
+over `evaluate()` and every later `resume_with_*`. (Since the `fix:` for finding C07-2 the limit
+`u32::MAX` is covered too: the comparison comes before a saturating increment.) -/
+theorem iter_limit (m : Nat) (hm : m < 2 ^ 32) (fuel : Nat) (s : Eval) (r : Request) (s' : Eval)
     (hmax : s.cfg.maxIterations = some m) (hit : s.iteration ≤ m)
     (h : evaluateInternal fuel s = .ok (r, s')) :
     s'.cfg = s.cfg ∧ s.iteration ≤ s'.iteration ∧ s'.iteration ≤ m ∧
@@ -138,7 +144,7 @@ theorem iter_limit (m : Nat) (hm : m + 1 < 2 ^ 32) (fuel : Nat) (s : Eval) (r : 
 /-- **`iter_limit`** (no looping). With the limit set, `m + 2` iterations of fuel counted from the
 current counter always suffice: the call returns a result or an error (`TooManyIterations` when
 the program needs more), never runs on and never panics. -/
-theorem iter_limit_terminates (m : Nat) (hm : m + 1 < 2 ^ 32) (fuel : Nat) (s : Eval)
+theorem iter_limit_terminates (m : Nat) (hm : m < 2 ^ 32) (fuel : Nat) (s : Eval)
     (hmax : s.cfg.maxIterations = some m) (hit : s.iteration ≤ m) (hf : m + 2 ≤ fuel + s.iteration) :
     (evaluateInternal fuel s).Normal :=
   evalInternal_terminates m hm fuel s hmax hit hf
@@ -148,7 +154,7 @@ theorem iter_limit_terminates (m : Nat) (hm : m + 1 < 2 ^ 32) (fuel : Nat) (s : 
 `max_iterations = m`, given `m + 2` fuel per call: never runs out of fuel (it ends with a result,
 `TooManyIterations` or another error, or at the end of the script), and the state it ends in has
 executed at most `m` operations in total (`iteration ≤ m`) and decoded at most two per iteration. -/
-theorem iter_limit_run (m : Nat) (hm : m + 1 < 2 ^ 32) (fuel : Nat) (hf : m + 2 ≤ fuel) (toks : List Tok) (s : Eval)
+theorem iter_limit_run (m : Nat) (hm : m < 2 ^ 32) (fuel : Nat) (hf : m + 2 ≤ fuel) (toks : List Tok) (s : Eval)
     (hmax : s.cfg.maxIterations = some m) (hit : s.iteration ≤ m) :
     (run fuel toks s).2.1 ≠ .diverged ∧
       ∀ e, (run fuel toks s).2.2 = some e →
@@ -158,19 +164,18 @@ theorem iter_limit_run (m : Nat) (hm : m + 1 < 2 ^ 32) (fuel : Nat) (hf : m + 2 
   obtain ⟨h3, h4⟩ := h2 e he
   exact ⟨h3, by omega⟩
 
-/-- **`iter_limit` is false for `max_iterations = u32::MAX`** (finding C07-2; the reason for the
-hypothesis `m + 1 < 2^32` above). On the endless loop `DW_OP_skip -3` with that limit, in a build
-without overflow checks the evaluator never reports the limit, whatever the fuel: the `u32` counter
-wraps from `u32::MAX` to 0. -/
-theorem iter_limit_u32_max_counterexample (fuel it dec : Nat) (hit : it < 2 ^ 32) :
-    evaluateInternal fuel (loopState .release it dec) = .diverge :=
-  selfLoop_release_never_stops fuel it dec hit
+/-- regression for finding C07-2: with `max_iterations = u32::MAX` the endless loop
+`DW_OP_skip -3` is stopped by `TooManyIterations` after exactly `u32::MAX` operations, in either
+build mode (the unchecked `+= 1` used to overflow: panic / wrap-around and no error ever). -/
+theorem iter_limit_u32_max_regression (mode : Mode) (dec : Nat) :
+    evaluateInternal ((2 ^ 32 - 1) + 1) (loopState mode (some (2 ^ 32 - 1)) 0 dec) = .err .rTooManyIterations :=
+  selfLoop_u32_max_limit mode (2 ^ 32 - 1) 0 dec (by omega)
 
-/-- … and in a build with overflow checks the increment panics after `u32::MAX` iterations
-(observed on the real crate at `src/read/op.rs:2024`). -/
-theorem iter_limit_u32_max_panics (dec : Nat) :
-    evaluateInternal ((2 ^ 32 - 1) + 1) (loopState .debug 0 dec) = .panic "attempt to add with overflow" :=
-  selfLoop_debug_panics (2 ^ 32 - 1) 0 dec (by omega)
+/-- … and without a limit the counter saturates instead of overflowing: however long the loop
+runs, the evaluator does not panic (only the Model's fuel runs out). -/
+theorem iter_counter_saturates (mode : Mode) (fuel it dec : Nat) :
+    evaluateInternal fuel (loopState mode none it dec) = .diverge :=
+  selfLoop_no_limit_never_panics mode fuel it dec
 
 /-- a looping program: the limit error, not a hang (`DW_OP_skip -3` forever, limit 5) -/
 example :
@@ -193,6 +198,15 @@ theorem stack_capacity (fuel : Nat) (s : Eval) :
       (evaluateInternal fuel s).map heapRes = (evaluateInternal fuel (heapState s)).map heapRes :=
   evaluateInternal_cap fuel s
 
+/-- **`stack_capacity`** (invariant). The value stack of a fixed-capacity evaluator never holds more
+than `n` values: every state `evaluate` / `resume_with_*` return satisfies the bound if the state
+they start from does (a fresh evaluator has an empty stack). Together with `stack_full_iff`:
+`StackFull` is returned exactly at the pushes that would take the stack beyond `n`. -/
+theorem stack_within_capacity (fuel : Nat) (s : Eval) (r : Request) (s' : Eval) (h0 : StackOk s.cfg s.m) :
+    (evaluateInternal fuel s = .ok (r, s') → StackOk s'.cfg s'.m) ∧
+    (∀ a, resume fuel a s = .ok (r, s') → StackOk s'.cfg s'.m) :=
+  ⟨fun h => (evaluateInternal_stackOk fuel s r s' h0 h).2, fun a h => (resume_stackOk fuel a s r s' h0 h).2⟩
+
 /-- four pushes into `[Value; 3]` -/
 example :
     (Eval.new .little ⟨4, .dwarf32, 4⟩ { stack := some 3 } .debug [0x30, 0x31, 0x32, 0x33] none none none).bind
@@ -203,8 +217,7 @@ example :
 /-- **`eval_refines`** (partial — see below). Take any expression `code` (shorter than `2^63`
 bytes), byte order, encoding with address size `a ∈ {1,2,4,8}`, optional initial value and object
 address, any script `toks` of resume answers (`TokOk`: integer values that fit their type, any
-called expressions shorter than `2^63` bytes) and any fuel (`hfuel`: the `u32` iteration counter
-cannot wrap within the run). Run the Model evaluator from `Evaluation::new` (heap storage, no
+called expressions shorter than `2^63` bytes) and any fuel. Run the Model evaluator from `Evaluation::new` (heap storage, no
 iteration limit) through `evaluate()` and one `resume_with_*` per request, and run the Spec
 machine (`Spec/Machine.lean`: mathematical integers, generic values modulo `2^(8a)`, pc as an
 offset, return stack, `OpTable` decode) on the same script. Then (`RunRel`), unless the Spec run
@@ -223,20 +236,20 @@ reaches a point it leaves unspecified:
 Typed values are inside: `DW_OP_const_type`, `DW_OP_convert`, `DW_OP_reinterpret`,
 `DW_OP_regval_type`, `DW_OP_deref_type` with integer base types and typed integer answers.
 
-PARTIAL. Not covered (the Spec says `unspecified`, the theorem then claims nothing): the shifts
-`DW_OP_shl/shr/shra` (finding C07-1: the Model, like `value.rs`, uses an unmasked generic count)
-and floating point values (float answers, float base types). Fixed-capacity storage and the
-iteration limit are related to this run by `stack_capacity` and `iter_limit`.
-The full statement drops "unless unspecified" and the storage / limit restrictions. -/
+PARTIAL: only floating point values are excluded (float answers, float base types: there the Spec
+says `unspecified` and the theorem claims nothing); every operation on integers, including the
+shifts, is covered. Fixed-capacity storage and the iteration limit are related to this run by
+`stack_capacity` and `iter_limit`. The full statement drops "unless unspecified" and the
+storage / limit restrictions. -/
 theorem eval_refines_partial (a : Nat) (ha : AddrSize a) (e : Endian) (enc : Encoding)
     (henc : enc.addressSize = a) (mode : Mode) (code : Bytes) (hlen : code.length < 2 ^ 63)
     (init obj : Option Nat) (hinit : ∀ v, init = some v → v < 2 ^ 64) (hobj : ∀ v, obj = some v → v < 2 ^ 64)
     (fuel : Nat) (toks : List Eval.Tok) (htoks : ∀ t ∈ toks, TokOk t)
-    (hfuel : (toks.length + 1) * fuel < 2 ^ 32) (s : Eval)
+    (s : Eval)
     (hnew : Eval.new e enc {} mode code init obj none = .ok s) :
     RunRel a (Eval.run fuel toks s)
       (Spec.Machine.runAll ⟨e, enc, obj⟩ fuel (absScript a toks) code init) :=
-  Sim.run_refines a ha e enc henc mode code hlen init obj hinit hobj fuel toks htoks hfuel s hnew
+  Sim.run_refines a ha e enc henc mode code hlen init obj hinit hobj fuel toks htoks s hnew
 
 /-- the Spec machine is not vacuous: a program with a loop (`lit5; L: lit1 minus dup bra L`), a
 register request (`breg0 2`), arithmetic and a `stack_value` location is inside the fragment and
@@ -245,6 +258,12 @@ example :
     Spec.Machine.runAll ⟨.little, ⟨4, .dwarf32, 4⟩, none⟩ 40 [fun _ => .register ⟨.generic, 7⟩]
       [0x35, 0x31, 0x1c, 0x12, 0x28, 0xfa, 0xff, 0x70, 0x02, 0x22, 0x9f] none
       = ([.requiresRegister 0 0, .complete], .done [⟨none, none, .value ⟨.generic, 9⟩⟩] none) := by decide
+
+/-- the former witness of finding C07-1 (`lit1; const4u 0xfffffffd; not; shl`, 4-byte addresses) is
+inside the fragment now and evaluates to 4 -/
+example :
+    Spec.Machine.runAll ⟨.little, ⟨4, .dwarf32, 4⟩, none⟩ 10 [] [0x31, 0x0c, 0xfd, 0xff, 0xff, 0xff, 0x20, 0x24] none
+      = ([.complete], .done [⟨none, none, .address 4⟩] (some ⟨.generic, 4⟩)) := by decide
 
 /-- one step of the simulation, for reference: every operation of the fragment, on related
 machines, has related effects (`Sim.exec_sim`), e.g. a taken branch lands on the same offset -/
